@@ -20,7 +20,8 @@ func vRender(cls []int) string {
 	return s
 }
 
-// VH_parseTokens [n]: all token sequences of exactly n tokens.
+// VH_parseTokens [n first]: all token sequences of exactly n tokens (first: class of the first
+// token, or - for all; used to spread long sequences over the cores).
 func VH_parseTokens(a []string) {
 	n := vAtoi(a[0])
 	toks := make([]token, n)
@@ -28,6 +29,9 @@ func VH_parseTokens(a []string) {
 	cls := make([]int, n)
 	for i := 0; i < n; i++ {
 		c := vPickInt(0, len(vTokRoles)-1, "c")
+		if i == 0 && len(a) > 1 && a[1] != "-" {
+			vAssume(c == vAtoi(a[1])) // shard: the class of the first token is fixed
+		}
 		cls[i] = c
 		toks[i] = token{role: vLibRole[vTokRoles[c]], value: vTokVals[c]}
 		rtoks[i] = vTok{role: vTokRoles[c], value: vTokVals[c]}
